@@ -161,10 +161,13 @@ func (c *Conn) Deliver(subject, reply string, data []byte) int {
 			continue
 		}
 		if s.Queue != "" {
-			if seenQ[s.Queue] {
+			// a queue group is a (subject, queue name) pair: subscriptions on different subjects
+			// each get the message even when they share the queue name
+			k := s.Subject + " " + s.Queue
+			if seenQ[k] {
 				continue
 			}
-			seenQ[s.Queue] = true
+			seenQ[k] = true
 		}
 		targets = append(targets, s)
 	}
